@@ -29,6 +29,8 @@ impl DJob {
     pub fn to_json(&self) -> Value {
         json!({"t":"disk","file":self.file,"edit":self.edit,"level":self.level,"e2e":self.e2e,"closure":self.closure,
             "no_lost_links": is_option_variation(&self.edit),
+            // name faults: no untouched element may end up referring to an element of another name
+            "retarget_oracle": self.closure && matches!(self.edit, Edit::DefRenamed { .. } | Edit::DefRemoved { .. } | Edit::RefRenamed { .. } | Edit::RenameQuoted { .. } | Edit::RenameQuotedUnicode { .. } | Edit::BlockRemoved { .. }),
             // level 0 = the conversion API without the catalogue merge (ctehexml::parse / Data::new alone)
             "no_catalog": self.level == 0,
             // conversions that include the export step also check that the export loads back equal
